@@ -304,3 +304,26 @@ func (m *Map) Len() int { return len(m.Keys) }
 func newMap(kt types.Type) *Map {
 	return &Map{KT: kt, idx: map[interface{}]int{}}
 }
+
+// assign stores v into *dst. Aggregates are copied element-wise INTO the
+// existing backing storage so that interior pointers (&s.f, &a[i]) taken
+// earlier stay valid, as in Go.
+func assign(dst *Value, v Value) {
+	switch v := v.(type) {
+	case Struct:
+		if d, ok := (*dst).(Struct); ok && len(d) == len(v) {
+			for i := range v {
+				assign(&d[i], v[i])
+			}
+			return
+		}
+	case Array:
+		if d, ok := (*dst).(Array); ok && len(d) == len(v) {
+			for i := range v {
+				assign(&d[i], v[i])
+			}
+			return
+		}
+	}
+	*dst = copyVal(v)
+}
